@@ -457,18 +457,95 @@ func isNilConst(v ssa.Value) bool {
 	return ok && c.Value == nil
 }
 
-// stripConv removes conversions / ChangeType wrappers.
+// stripConv removes conversions / ChangeType wrappers and sees through
+// single-assignment local cells (variables spilled by go/ssa because a
+// closure captures them or their address is taken).
 func stripConv(v ssa.Value) ssa.Value {
-	for {
+	for i := 0; i < 16; i++ {
 		switch x := v.(type) {
 		case *ssa.Convert:
 			v = x.X
+			continue
 		case *ssa.ChangeType:
 			v = x.X
+			continue
+		case *ssa.UnOp:
+			if x.Op == token.MUL {
+				if al, ok := x.X.(*ssa.Alloc); ok {
+					if sv := singleStore(al); sv != nil {
+						v = sv
+						continue
+					}
+				}
+			}
+		}
+		return v
+	}
+	return v
+}
+
+var singleStoreMemo = map[*ssa.Alloc]ssa.Value{}
+var singleStoreDone = map[*ssa.Alloc]bool{}
+
+// singleStore: the unique value ever stored into local cell al (nil if the
+// cell is assigned more than once, or written by a closure).
+func singleStore(al *ssa.Alloc) ssa.Value {
+	if singleStoreDone[al] {
+		return singleStoreMemo[al]
+	}
+	singleStoreDone[al] = true
+	var val ssa.Value
+	n := 0
+	for _, in := range refs(al) {
+		switch x := in.(type) {
+		case *ssa.Store:
+			if x.Addr == ssa.Value(al) {
+				n++
+				val = x.Val
+			} else {
+				return nil // the cell's address itself is stored somewhere
+			}
+		case *ssa.UnOp:
+		case *ssa.MakeClosure:
+			fn := x.Fn.(*ssa.Function)
+			for i, b := range x.Bindings {
+				if b == ssa.Value(al) && closureWrites(fn, fn.FreeVars[i]) {
+					return nil
+				}
+			}
+		case *ssa.FieldAddr, *ssa.IndexAddr:
+			return nil // struct/array cell: fields may be written separately
 		default:
-			return v
+			return nil
 		}
 	}
+	if n != 1 {
+		return nil
+	}
+	singleStoreMemo[al] = val
+	return val
+}
+
+func closureWrites(fn *ssa.Function, fv *ssa.FreeVar) bool {
+	for _, in := range refs(fv) {
+		switch x := in.(type) {
+		case *ssa.Store:
+			if x.Addr == ssa.Value(fv) {
+				return true
+			}
+		case *ssa.UnOp:
+		case *ssa.MakeClosure:
+			inner := x.Fn.(*ssa.Function)
+			for i, b := range x.Bindings {
+				if b == ssa.Value(fv) && closureWrites(inner, inner.FreeVars[i]) {
+					return true
+				}
+			}
+		default:
+			return true
+		}
+	}
+	return false
 }
 
 // derefNamed returns the named struct type behind T or *T.
